@@ -7,6 +7,7 @@ import (
 	"fmt"
 	"math/rand"
 	"net"
+	"os"
 	"runtime"
 	"strconv"
 	"sync"
@@ -267,20 +268,34 @@ func WaitUntil(d time.Duration, cond func() bool) bool {
 	}
 }
 
-// FreePorts n distinct free loopback ports
+var portMu sync.Mutex
+var nextPort int
+
+// FreePorts n distinct free loopback ports. They are taken from 20000..32000, below the kernel's
+// ephemeral range, through a process-wide cursor: a port handed out here is never handed out twice
+// and cannot be grabbed by a concurrent listener on port 0 (origins) or an outgoing connection.
 func FreePorts(n int) []int {
-	ports := make([]int, 0, n)
-	lns := make([]net.Listener, 0, n)
-	for i := 0; i < n; i++ {
-		ln, err := net.Listen("tcp", "127.0.0.1:0")
-		if err != nil {
-			panic(err)
-		}
-		lns = append(lns, ln)
-		ports = append(ports, ln.Addr().(*net.TCPAddr).Port)
+	portMu.Lock()
+	defer portMu.Unlock()
+	if nextPort == 0 {
+		nextPort = 20000 + (os.Getpid()*37)%9000
 	}
-	for _, ln := range lns {
+	ports := make([]int, 0, n)
+	for tries := 0; len(ports) < n && tries < 20000; tries++ {
+		p := nextPort
+		nextPort++
+		if nextPort >= 32000 {
+			nextPort = 20000
+		}
+		ln, err := net.Listen("tcp", "127.0.0.1:"+strconv.Itoa(p))
+		if err != nil {
+			continue
+		}
 		ln.Close()
+		ports = append(ports, p)
+	}
+	if len(ports) < n {
+		panic("no free ports")
 	}
 	return ports
 }
